@@ -48,7 +48,27 @@ CrossIssues(Ab, Ax, B) ==
                 nm \in {nm \in setNames : has(ib, nm) /\ has(ix, nm) /\ ~CrossEq(valOf(ib, nm), valOf(ix, nm))} }
        : k \in 1..N }
 
+\* beyond C06: inputs whose type is not the declared one but which both writers convert (rbx_xml's
+\* conversion table, the alternatives rbx_binary's column writers accept)
+ConvOK(av, pv, T) ==
+    CASE pv.t = "Int32" /\ T = "Int64"      -> av.t = "Int64" /\ av.v = SignExtend(pv.v)
+      [] pv.t = "Float32" /\ T = "Float64"  -> av.t = "Float64" /\ FEq(av.v, WidenF32(pv.v))
+      [] pv.t = "EnumItem" /\ T = "Enum"    -> av.t = "Enum" /\ av.v = pv.v[2]
+      [] pv.t = "Int32" /\ T = "BrickColor" -> av.t = "BrickColor" /\ av.v = pv.v[3] * 256 + pv.v[4]
+      [] OTHER -> TRUE
+ConvIssues(A, B) ==
+    UNION { { <<k, B.inst[k].class, B.inst[k].props[x][1], "not-converted">> :
+                x \in { x \in 1..Len(B.inst[k].props) :
+                          LET c  == B.inst[k].class
+                              nm == CanonicalName(c, B.inst[k].props[x][1])
+                              ys == {y \in 1..Len(A.inst[k].props) : A.inst[k].props[y][1] = nm}
+                          IN ys = {} \/ \E y \in ys : ~ConvOK(A.inst[k].props[y][2], B.inst[k].props[x][2], CanonicalType(c, nm)) } }
+            : k \in 1..Len(B.inst) }
+
 CheckCross ==
+    /\ ("convertible" \in DOMAIN Ev /\ TripOK(Ev.bin) /\ Len(Ev.bin.after.inst) = Len(Ev.before.inst)) =>
+          LET iss == ConvIssues(Ev.bin.after, Ev.before) IN
+          IF iss = {} THEN TRUE ELSE Report("converted", iss)
     /\ Clause("bin-trip", TripOK(Ev.bin))
     /\ Clause("xml-trip", TripOK(Ev.xml))
     /\ (TripOK(Ev.bin) /\ TripOK(Ev.xml)) =>
